@@ -191,11 +191,12 @@ theorem lookupItem_eq {s : Store} (hM : MapsOK K s) (ks : Option (List Key))
 
 
 /-- the literal keys of the operation are in `K`, and no `?` lookup has a boolean key -/
-def OpOK (K : List Key) (op : Op) : Prop := (∀ k ∈ opKeys op, k ∈ K) ∧ opBoolLookup op = false
+def OpOK (K : List Key) (op : Op) : Prop :=
+  (∀ k ∈ opKeys op, k ∈ K) ∧ opBoolLookup op = false ∧ opIsDeq op = false
 
 theorem evalOp_refine (st : St) (hM : MapsOK K st.store) (op : Op) (hop : OpOK K op) :
     evalOp (pyDialect false) st op = evalOp specDialect st op := by
-  obtain ⟨hkeys, hbool⟩ := hop
+  obtain ⟨hkeys, hbool, hdeq⟩ := hop
   cases op with
   | seq parts => rfl
   | mCtor es =>
@@ -283,6 +284,13 @@ theorem evalOp_refine (st : St) (hM : MapsOK K st.store) (op : Op) (hop : OpOK K
   | aJoin v => rfl
   | aFlatten v => rfl
   | aSize a => rfl
+  | aForEach a f => rfl
+  | aFilter a p => rfl
+  | aFoldL a z f => rfl
+  | aFoldR a z f => rfl
+  | aForEachPair a b f => rfl
+  | mForEachF m f => rfl
+  | deq a b => simp [opIsDeq] at hdeq
 
 
 omit hA in
@@ -370,7 +378,7 @@ theorem ok_alloc_arr {s s' : Store} {ms : List Seq} {v' : Seq} (hM : MapsOK K s)
 
 theorem evalOp_spec_MapsOK (st : St) (hM : MapsOK K st.store) (op : Op) (hop : OpOK K op)
     (s' : Store) (v : Seq) (h : evalOp specDialect st op = .ok (s', v)) : MapsOK K s' := by
-  obtain ⟨hkeys, hbool⟩ := hop
+  obtain ⟨hkeys, hbool, hdq⟩ := hop
   cases op <;> simp only [evalOp, specDialect, writeBack, Bool.false_eq_true, ↓reduceIte] at h
   case mCtor es =>
     refine liftAlloc_map_ok hM (fun es' hes' => spec_construct_ok hA (fun e he => ?_) hes') h
